@@ -363,6 +363,22 @@ def rule_pandas_all(ctx):
                               f"{method} raises {p.value.cls} although a result set is open"
                               f"{' (decided by the table being empty: a zero-row result is still a result set)' if empty else ''}")
     ctx.floor("C05.f open-result-set paths", nn, 4)
+    # get_result_batches: the batches of the result table, None without a result set
+    if prog.has_fn("cursor", "FakeSnowflakeCursor.get_result_batches"):
+        for label, tab in (("an open result set", _table), ("no result set", Const(None))):
+            for p, cur in _run(prog, "get_result_batches", [], tab, Const(None)):
+                v = p.value if p.outcome == "return" else None
+                if label == "no result set":
+                    ok = isinstance(v, Const) and v.v is None
+                else:
+                    ok = v is not None and not (isinstance(v, Const) and v.v is None) and "to_batches" in tagof(v) + "".join(
+                        str(e[1]) for e in p.effects if e[0] == "call")
+                ctx.ob("C05.f", f"get_result_batches with {label}", ok, loc, tagof(v)[:60] if v is not None else p.outcome)
+                if not ok:
+                    ctx.violation("C05.f", "cursor", "FakeSnowflakeCursor.get_result_batches", f"get_result_batches with {label}", loc,
+                                  f"get_result_batches with {label} {'raises ' + p.value.cls if p.outcome == 'raise' else 'returns `' + tagof(v)[:60] + '`'}: "
+                                  f"expected {'None' if label == 'no result set' else 'the batches of the result table'}")
+                break
 
 
 RULES = [
